@@ -52,6 +52,11 @@ def cases(chk):
     # SQLite's own all-or-nothing commit (trusted base for a death INSIDE a COMMIT) must be left switched on by the store
     yield "journal", {"after": "open"}
     yield "journal", {"after": "use"}
+    # an operation on one key never costs the record stored under another key: a second device of the same contact, a second sender of the
+    # same group, neighbouring ids — whether the store accepts the second operation or refuses it
+    for what in ("session-other-device", "session-delete-other-device", "senderkey-other-sender", "senderkey-other-group", "prekey-neighbour", "signed-neighbour", "identity-other-contact"):
+        for reopen in (0, 1):
+            yield "otherkey", {"what": what, "reopen": reopen}
     # corpus: replace of an existing session / identity killed at every point
     for op in (0, 3, 9):
         for j in range(0, 8):
@@ -199,7 +204,83 @@ def run_journal(chk, case):
     return out
 
 
+def run_otherkey(chk, case):
+    import os
+    import tempfile
+    from axolotl.groups.senderkeyname import SenderKeyName
+    from axolotl.axolotladdress import AxolotlAddress
+    from yowsup.axolotl.store.sqlite.liteaxolotlstore import LiteAxolotlStore
+    pool = chk.pool
+    path = os.path.join(tempfile.mkdtemp(prefix="c13o-"), "axolotl.db")
+    store = LiteAxolotlStore(path)
+    what = case["what"]
+    chk.hit("otherkey:" + what)
+    refused = None
+    g1, g2 = "4915-1400000000@g.us", "4915-1400000001@g.us"
+    if what.startswith("session"):
+        store.storeSession(4915001, 1, pool.session[0])
+        first = lambda st: st.loadSession(4915001, 1).serialize() if st.containsSession(4915001, 1) else None
+        want = pool.session[0].serialize()
+        try:
+            if what == "session-other-device":
+                store.storeSession(4915001, 2, pool.session[1])
+            else:
+                store.deleteSession(4915001, 2)
+        except Exception as e:
+            refused = type(e).__name__
+    elif what.startswith("senderkey"):
+        n1 = SenderKeyName(g1, AxolotlAddress("4915001", 0))
+        n2 = SenderKeyName(g1, AxolotlAddress("4915002", 0)) if what == "senderkey-other-sender" else SenderKeyName(g2, AxolotlAddress("4915001", 0))
+        store.storeSenderKey(n1, pool.sender[0])
+        first = lambda st: st.loadSenderKey(n1).serialize()
+        want = pool.sender[0].serialize()
+        try:
+            store.storeSenderKey(n2, pool.sender[1])
+        except Exception as e:
+            refused = type(e).__name__
+    elif what == "prekey-neighbour":
+        store.storePreKey(7, pool.prekey(7, 0))
+        first = lambda st: st.loadPreKey(7).serialize()
+        want = pool.prekey(7, 0).serialize()
+        try:
+            store.storePreKey(8, pool.prekey(8, 1))
+            store.removePreKey(8)
+            store.preKeyStore.setAsSent([8])
+        except Exception as e:
+            refused = type(e).__name__
+    elif what == "signed-neighbour":
+        store.storeSignedPreKey(3, pool.signed(3, 0))
+        first = lambda st: st.loadSignedPreKey(3).serialize()
+        want = pool.signed(3, 0).serialize()
+        try:
+            store.storeSignedPreKey(4, pool.signed(4, 1))
+            store.removeSignedPreKey(4)
+        except Exception as e:
+            refused = type(e).__name__
+    else:
+        store.saveIdentity(4915001, pool.identity[0])
+        first = lambda st: st.isTrustedIdentity(4915001, pool.identity[0])
+        want = True
+        try:
+            store.saveIdentity(4915002, pool.identity[1])
+        except Exception as e:
+            refused = type(e).__name__
+    if case["reopen"]:
+        store.identityKeyStore.dbConn.close()
+        store = LiteAxolotlStore(path)
+    try:
+        got = first(store)
+    except Exception as e:
+        got = "raises %s" % type(e).__name__
+    if got != want:
+        return [oracle("C13:other-key-operation-costs-a-record:" + what, "%s%s: the record stored first is %s afterwards (the second operation was %s)"
+                       % (what, " + reopen" if case["reopen"] else "", "gone" if got is None else ("changed" if not isinstance(got, str) else got), "refused with " + refused if refused else "accepted"))]
+    return []
+
+
 def run_case(chk, stream, case):
+    if stream == "otherkey":
+        return run_otherkey(chk, case)
     if stream == "journal":
         return run_journal(chk, case)
     case = dict(case)
@@ -334,7 +415,7 @@ def _child(path, pool, op, j):
 
 
 def shrink(stream, case):
-    if stream == "journal":
+    if stream in ("journal", "otherkey"):
         return
     if stream == "crash":
         pre = case["pre"]
